@@ -1007,3 +1007,22 @@ Lemma shielding_whole_sections_subgroups : forall st v s, given (ss_sections_sub
   parse_segment (st_with_sections_subgroups st v) s = parse_segment st s.
 Proof. intros st v s G. destruct s. unfold given in G. cbn in G. unfold parse_segment, st_with_sections_subgroups. proj_goal.
   destruct ss_sections_subgroups; [exfalso; apply G; reflexivity | reflexivity | reflexivity]. Qed.
+
+(* ---------- example inputs (used by the Examples of Properties/C08.v) ---------- *)
+
+Definition c08_ex_no_conds : conds_serial := mkCondsSerial Absent Absent Absent Absent.
+Definition c08_ex_file : file_serial :=
+  FileSerial [] (Value "src/main.o") Absent Absent Absent Absent Absent Absent Absent Absent c08_ex_no_conds SKAbsent.
+
+(* settings: alloc_sections: [.text, .data] / subalign: 16 / fill_value: null / everything else omitted *)
+Definition c08_ex_settings : settings_serial :=
+  sts_with_subalign
+    (sts_with_fill_value (sts_with_alloc_sections all_absent_settings (Value [".text"; ".data"])) Null)
+    (Value 16%N).
+Definition c08_ex_st : settings := st_with_subalign (st_with_fill_value
+  (st_with_alloc_sections doc_default_settings [".text"; ".data"]) None) (Some 16%N).
+
+(* a segment that disables subalign (null), sets wildcard_sections and section_end_align, omits the rest *)
+Definition c08_ex_segment : segment_serial :=
+  SegmentSerial [] (Value "boot") (Some [c08_ex_file]) (Value 2147484672%N) Absent Absent Absent Absent Absent c08_ex_no_conds
+    Absent Absent Null Absent Absent Absent (Value 8%N) Absent Absent (Value false) Absent Absent SKAbsent.
